@@ -584,7 +584,7 @@ def run(ctx, known, built):
                 # the plist files of the input, read by the tree-level file codecs: what norad loaded
                 try:
                     for rel, e in ffc.checks_loaded(os.path.join(cd, "in.ufo"), first,
-                                                        fontinfo=(thorough or len(fcorr) % 3 == 0)):
+                                                        fontinfo=(len(fcorr) % (13 if thorough else 3) == 0)):
                         fcorr.append((name + "/" + rel, e))
                 except Exception as e:
                     ctx.disagreements.append({"what": "cannot build the file-codec case", "input": name, "kind": kind,
